@@ -71,6 +71,24 @@ func (s *sched) execLine(line string) bool {
 		} else {
 			s.fnet(n, true, srvOK)
 		}
+	case "freq":
+		if !flightAt("miss") {
+			return false
+		}
+		where := stallBeforeHeaders
+		if len(w) > 2 && w[2] == "midbody" {
+			where = stallMidBody
+		}
+		s.freq(n, where)
+	case "fbody":
+		if f := s.flights[n]; f == nil || !f.reqOpen {
+			return false
+		}
+		if len(w) > 2 && w[2] == "0" {
+			s.fbody(n, false, srv500)
+		} else {
+			s.fbody(n, true, srvOK)
+		}
 	case "fstore":
 		if !flightAt("fetched") {
 			return false
